@@ -68,6 +68,14 @@ def gen_universe(rng: random.Random, **opts: Any) -> dict:
                 "required": rng.random() < 0.5,
                 "on": rng.choice([k for k in kinds]),
             }
+        cookie = None
+        if rng.random() < opts.get("p_cookie_param", 0.0):
+            cookie = {
+                "name": "pref",
+                "schema": {"type": "string", "enum": ["a", "b", "c"]},
+                "required": rng.random() < 0.5,
+                "on": rng.choice([k for k in kinds]),
+            }
         links = []
         if want_links and "create" in kinds:
             for target in ("read", "update", "delete"):
@@ -98,6 +106,8 @@ def gen_universe(rng: random.Random, **opts: Any) -> dict:
             "required": required,
             "query": qparams,
             "header": hdr,
+            "cookie": cookie,
+            "secured": [k for k in kinds if rng.random() < opts.get("p_secured", 0.0)],
             "links": links,
             "tags": {k: rng.sample(TAG_POOL, rng.randint(0, 2)) for k in kinds},
             "deprecated": [k for k in kinds if rng.random() < opts.get("p_deprecated", 0.1)],
@@ -148,6 +158,7 @@ class RefOp:
     responses: list  # documented status keys (strings)
     links: list = field(default_factory=list)  # outgoing link dicts (with resolved "target" op key)
     examples: list = field(default_factory=list)
+    secured: bool = False
 
     @property
     def label(self) -> str:
@@ -218,8 +229,15 @@ class Universe:
                         {"name": hdr["name"], "in": "header", "required": hdr["required"], "schema": copy.deepcopy(hdr["schema"])}
                     )
                     ref_params.append(RefParam(hdr["name"], "header", hdr["schema"], hdr["required"]))
+                ck = coll.get("cookie")
+                if ck and ck["on"] == kind:
+                    params.append({"name": ck["name"], "in": "cookie", "required": ck["required"], "schema": copy.deepcopy(ck["schema"])})
+                    ref_params.append(RefParam(ck["name"], "cookie", ck["schema"], ck["required"]))
                 if params:
                     op["parameters"] = params
+                secured = bool(desc.get("security")) and kind in (coll.get("secured") or [])
+                if secured:
+                    op["security"] = [{"sim_auth": []}]
                 body_schema = None
                 if kind in ("create", "update"):
                     body_schema = new_schema
@@ -249,6 +267,8 @@ class Universe:
                     responses = {"200": obj_resp(), "400": err, "404": err}
                 else:
                     responses = {"204": {"description": "deleted"}, "400": err, "404": err}
+                if secured:
+                    responses["401"] = err
                 op["responses"] = responses
                 mkey = method.upper() if coll.get("upper_methods") else method
                 paths.setdefault(path, {})[mkey] = op
@@ -266,6 +286,7 @@ class Universe:
                     body_schema=body_schema,
                     responses=list(responses),
                 )
+                self.ops[key].secured = secured
             # links
             for i, link in enumerate(coll["links"]):
                 src_kind, dst_kind = link["from"], link["to"]
@@ -292,6 +313,15 @@ class Universe:
                 )
                 if link["key"] not in self.ops[src_key].responses:
                     self.ops[src_key].responses.append(link["key"])
+        sec = desc.get("security")
+        if sec:
+            scheme = {
+                "apikey": {"type": "apiKey", "in": "header", "name": sec.get("header", "X-API-Key")},
+                "apikey_query": {"type": "apiKey", "in": "query", "name": sec.get("name", "api_key")},
+                "bearer": {"type": "http", "scheme": "bearer"},
+                "basic": {"type": "http", "scheme": "basic"},
+            }[sec["scheme"]]
+            components["securitySchemes"] = {"sim_auth": scheme}
         self.doc = {
             "openapi": "3.0.2",
             "info": {"title": "sim", "version": "1.0"},
